@@ -10,7 +10,7 @@ CHECKS=sys.argv[1:] or ['C01','C02','C03','C04','C05','C08','C09','C11','C12','C
 FINDINGS={
  'D17': "greedy repeat of a body that can match empty loses matches: the progress guard cuts the repeat off after four results at one position ('(?:.*)*a' on 'ab' does not match; 'a(?:.*)+' reports a shorter span); cannot be repaired because regexml's own test test_plus_inside_and_star_inside_capture_group pins the wrong answer for '^(.*)+B' on 'AB'",
  'D19': "nested variable-length repeats lose matches through the same progress guard when an inner repeat reports one end position five times in a row, which happens with a minimum of two over three nesting levels or with duplicate alternatives ('(?:(?:(?:a+)+){2,}?){2}' on 'aaaa' and '(?:(?:ab|ab){1,2}){2,3}(?:ab)' on 'ababab' do not match)",
- 'D24': "the zero-length-match history also suppresses an empty match that a REQUIRED iteration of an enclosing repeat needs: '(?:(?:a|bb)*$){2}' does not match the empty string, so it is not reported as matching it and replace_all / analyze / tokenize accept it; the history cannot be dropped without failing regexml's test re00036 (reported by a seeding sub-agent as a pre-existing defect)",
+ 'D24': "the zero-length-match history also suppresses an empty match that a REQUIRED iteration of an enclosing repeat needs: '(?:^(?:a|bb)*){2,3}' does not match 'b' and '(?:(?:a|bb)*$){2}' does not match 'a' (the second, empty iteration is refused because the inner repeat already reported an empty match at that position); on the empty input the required iterations are clamped to one since fix 419a024, so the nullability probe of C16 is no longer affected; the history cannot be dropped without failing regexml's test re00036 (first reported by a seeding sub-agent as a pre-existing defect)",
  'D22': "a group captured on an alternative that is later abandoned is reported by analyze as present and empty instead of absent: rolling back only shrinks the group to zero length ('(?:(a)|b?)a' on the third 'a' of 'aaa' yields Group{nr:1} although group 1 did not participate); the same rollback mechanism as D9",
  'D26': "the dotted capital I (U+0130) and the dotless small i (U+0131) are simple case counterparts of 'i' and 'I' (their simple lower- / upper-case mappings), but ICU's case closure and simple case folding leave them out: under flag i the class [i] does not match U+0130 while the literal i does, U+0131 and I never match each other, and since the literal U+0130 does match 'i' (lower-case comparison) while the first-character analysis (case closure) says it cannot, 'U+0130*i' is turned into a non-backtracking repeat and no longer matches 'i'; a complete repair needs a reverse table of the simple case mappings for the class closure and the first-character sets, which is a design change rather than a minimal patch",
  'D28': "a pattern nested 100000 levels deep (groups, non-capturing groups, right-nested alternations, class subtractions, optional groups, quantified groups) overflows the stack and aborts the process instead of returning Ok or Err(Syntax): parser, optimiser, matcher and Drop all recurse on the nesting depth (observed in a subprocess on a thread with a fixed 16 MiB stack; depths up to 256 complete). A nesting limit would turn the abort into an error but reject grammar-valid patterns (C07), an iterative rewrite of four recursive passes is not a small patch",
@@ -23,6 +23,7 @@ def classify(prop, key, shape):
         # only the dotted / dotless i family is a recorded finding
         return 'D26' if ('\\u{130}' in key or '\\u{131}' in key) else None
     if scope.startswith('DUP'): return 'D19'
+    if scope.startswith('HIST'): return 'D24'
     if scope=='deep nesting': return 'D28' if (kind=='Abort' and 'depth 100000' in key) else None
     if prop=='C16' and 'nullable-loop' in shape: return 'D24'
     if 'nullable-loop' in shape: return 'D17'
